@@ -275,7 +275,37 @@ sc_add_g = _g("add", sc_add)
 sc_min_g = _g("min", sc_min)
 
 
+def ng_split(x):
+    """(is -inf, finite value) of a -inf-or-finite scalar"""
+    if isinstance(x, NegGuarded):
+        return x.ninf, x.val
+    if _is_ninf(x):
+        return True, 0
+    if is_inf(x) or isinstance(x, Guarded):
+        raise Unsupported("+inf and -inf mixed in one term")
+    return False, x
+
+
+def ng_cmp(op, a, b):
+    """comparison of -inf-or-finite scalars (-inf below every finite value, equal to itself)"""
+    fa, va = ng_split(a)
+    fb, vb = ng_split(b)
+    B = lambda c: z3.BoolVal(c) if isinstance(c, bool) else c
+    fa, fb = B(fa), B(fb)
+    if op in ("lt", "le"):
+        return ng_cmp({"lt": "gt", "le": "ge"}[op], b, a)
+    fin = lambda o: B(sc_cmp(o, va, vb))
+    if op == "ge":
+        return z3.simplify(z3.Or(fb, z3.And(z3.Not(fa), fin("ge"))))
+    if op == "gt":
+        return z3.simplify(z3.And(z3.Not(fa), z3.Or(fb, fin("gt"))))
+    eq = z3.Or(z3.And(fa, fb), z3.And(z3.Not(fa), z3.Not(fb), fin("eq")))
+    return z3.simplify(eq if op == "eq" else z3.Not(eq))
+
+
 def sc_cmp_g(op, a, b):
+    if isinstance(a, NegGuarded) or isinstance(b, NegGuarded):
+        return ng_cmp(op, a, b)
     if isinstance(a, Guarded) or isinstance(b, Guarded):
         return g_binop(op, a, b)
     return sc_cmp(op, a, b)
@@ -1529,6 +1559,28 @@ def m_topk(I, t, k, dim=-1, largest=True, sorted=True):
     idxs = np.empty(moved.shape[:-1] + (k,), dtype=object)
     for pos in np.ndindex(*moved.shape[:-1]):
         row = [moved[pos + (j,)] for j in range(n)]
+        if any(isinstance(x, NegGuarded) or _is_ninf(x) for x in row):
+            # same contract over -inf-or-finite elements (-inf is the smallest value): the reported value is the element at the index
+            ks = [I.ex.fresh("int", "topk_idx") for _ in range(k)]
+            vs = [NegGuarded(I.ex.fresh("bool", "topk_ninf"), I.ex.fresh("real", "topk_val")) for _ in range(k)]
+            cons = []
+            for a in range(k):
+                cons.append(z3.And(ks[a] >= 0, ks[a] < n))
+                for j in range(n):
+                    fj, vj = ng_split(row[j])
+                    fj = z3.BoolVal(fj) if isinstance(fj, bool) else fj
+                    cons.append(z3.Implies(ks[a] == j, z3.And(vs[a].ninf == fj, z3.Implies(z3.Not(fj), vs[a].val == to_z3(vj, vs[a].val)))))
+                for b in range(a + 1, k):
+                    cons.append(ks[a] != ks[b])
+                    cons.append(ng_cmp("ge", vs[a], vs[b]))
+            for j in range(n):
+                if k:
+                    cons.append(z3.Implies(z3.And([ks[a] != j for a in range(k)]), ng_cmp("le", row[j], vs[k - 1])))
+            I.ex.assume(z3.And(cons) if cons else z3.BoolVal(True))
+            for a in range(k):
+                vals[pos + (a,)] = vs[a]
+                idxs[pos + (a,)] = ks[a]
+            continue
         ks = [I.ex.fresh("int", "topk_idx") for _ in range(k)]
         vs = [I.ex.fresh("real", "topk_val") for _ in range(k)]
         cons = []
@@ -1582,3 +1634,23 @@ def m_scatter(I, t, dim, index, src):
 
 
 METHODS["scatter"] = FUNCS["torch.scatter"] = m_scatter
+
+
+def f_one_hot(I, t, num_classes=-1):
+    if num_classes is None or (isinstance(num_classes, int) and num_classes < 0):
+        raise Unsupported("one_hot without num_classes (data-dependent shape)")
+    V = int(num_classes)
+    out = np.empty(t.shape + (V,), dtype=object)
+    for pos in np.ndindex(*t.shape):
+        x = t.a[pos]
+        if is_z3(x):
+            I.ex.oblige("one_hot.class_in_range", z3.And(x >= 0, x < V))
+        elif not (0 <= int(x) < V):
+            raise PyRaise("RuntimeError", "Class values must be smaller than num_classes.")
+        for v in range(V):
+            out[pos + (v,)] = sc_where(to_z3(x) == v, 1, 0) if is_z3(x) else int(int(x) == v)
+    return CT(out, "long")
+
+
+FUNCS["torch.nn.functional.one_hot"] = FUNCS["torch._C._nn.one_hot"] = f_one_hot
+_c("one_hot(x, V)[..., v] = [x = v], classes in range")
